@@ -2,7 +2,7 @@
 From Coq Require Import String.
 From Coq Require Import ZArith List Bool.
 From LasV Require Import Lib.Base Lib.Layout Gen.GenHeaderLayout Gen.GenFormatBits Gen.GenDims Model.Las Model.LasSpec Model.HeaderOps
-  Proofs.HeaderLen Proofs.VlrProofs Proofs.HeaderProofs Proofs.HeaderMisc Proofs.HeaderOpsProofs.
+  Proofs.HeaderLen Proofs.VlrProofs Proofs.HeaderProofs Proofs.HeaderMisc Proofs.HeaderOpsProofs Model.HeaderObj Proofs.HeaderObjProofs.
 Import ListNotations.
 Open Scope list_scope.
 Open Scope Z_scope.
@@ -87,8 +87,37 @@ Theorem C07_convert_keeps_version : forall s f s', hstep s (HConvert f None) = O
 Proof. exact convert_keeps_version. Qed.
 Print Assumptions C07_convert_keeps_version.
 
+(* the header OBJECT carries more than its fields (loaded EVLR list of any length, the LasData / points it is attached to, where it came
+   from): none of it reaches the bytes ... *)
+Theorem C07_aux_state_irrelevant : forall o o' es,
+  ho_fields o = ho_fields o' -> ho_vlrs o = ho_vlrs o' -> write_obj o es = write_obj o' es.
+Proof. exact write_obj_aux_irrelevant. Qed.
+Print Assumptions C07_aux_state_irrelevant.
+
+(* ... and every plain field (not the three computed by the layout arithmetic) is read back as the value of THAT attribute *)
+Theorem C07_field_own_value : forall o es h' bs rest n,
+  write_obj o es = Ok (h', bs) -> wf_header h' (ho_vlrs o) = true ->
+  In n (header_field_names (aint (ho_fields o) "version.minor")) -> derived_name n = false ->
+  exists rh, dec_header (bs ++ rest) false = Ok rh /\ aget (rh_fields rh) n = Some (wval (ho_fields o) n).
+Proof. exact field_own_value. Qed.
+Print Assumptions C07_field_own_value.
+
+(* two header objects that agree on a field read it back equal, whatever else differs (other fields, VLRs, padding, EVLR list, flags) *)
+Theorem C07_field_independent : forall o1 o2 es1 es2 h1 b1 h2 b2 r1 r2 n,
+  write_obj o1 es1 = Ok (h1, b1) -> write_obj o2 es2 = Ok (h2, b2) ->
+  wf_header h1 (ho_vlrs o1) = true -> wf_header h2 (ho_vlrs o2) = true ->
+  In n (header_field_names (aint (ho_fields o1) "version.minor")) -> In n (header_field_names (aint (ho_fields o2) "version.minor")) ->
+  derived_name n = false -> aget (ho_fields o1) n = aget (ho_fields o2) n ->
+  exists rh1 rh2, dec_header (b1 ++ r1) false = Ok rh1 /\ dec_header (b2 ++ r2) false = Ok rh2
+    /\ aget (rh_fields rh1) n = aget (rh_fields rh2) n.
+Proof. exact field_independent. Qed.
+Print Assumptions C07_field_independent.
+
 Example C07_nonvacuous :
   valid_date 2024 12 31 = true /\ yday 2024 12 31 = 366 /\ of_yday 2023 59 = Some (2023, 2, 28)
   /\ hcompat (hrun (mkHS (1, 2) 3) [HSetFormat 6; HConvert (Some 6) None; HSetVersion (1, 2); HSetFormat 0]) = true
-  /\ hrun (mkHS (1, 2) 3) [HSetFormat 6; HConvert (Some 6) None; HSetVersion (1, 2); HSetFormat 0] = mkHS (1, 4) 0.
+  /\ hrun (mkHS (1, 2) 3) [HSetFormat 6; HConvert (Some 6) None; HSetVersion (1, 2); HSetFormat 0] = mkHS (1, 4) 0
+  /\ existsb (String.eqb "number_of_evlrs") (header_field_names 4) = true /\ derived_name "number_of_evlrs" = false
+  /\ forallb (fun n => negb (derived_name n) || existsb (String.eqb n) ["offset_to_point_data"; "header_size"; "number_of_vlrs"]%string)
+       (header_field_names 4) = true.
 Proof. vm_compute. repeat split; reflexivity. Qed.
